@@ -259,7 +259,48 @@ func init() {
 		}
 		return nil, stNext
 	})
-	// FireTimers lets every pending deadline/tick event fire now (choice per event).
+	// FireTimers fires up to n pending environment events (ticks, deadlines) now.
+	regV(apiPkg+".FireTimers", func(m *Machine, g *Goroutine, a []Value) Value {
+		n := int(cint(a[0], "FireTimers"))
+		fired := 0
+		for i := 0; i < n; i++ {
+			evs := m.pendingEvents()
+			if len(evs) == 0 {
+				break
+			}
+			k := 0
+			if len(evs) > 1 {
+				k = m.choose(len(evs), "event")
+			}
+			m.fire(evs[k])
+			fired++
+		}
+		return mkInt(int64(fired))
+	})
+	// FireTicker delivers one tick of the i-th ticker created (regardless of the spontaneous-tick budget).
+	regV(apiPkg+".FireTicker", func(m *Machine, g *Goroutine, a []Value) Value {
+		i := int(cint(a[0], "FireTicker"))
+		k := 0
+		for _, t := range m.timers {
+			if t.kind != "tick" {
+				continue
+			}
+			if k == i {
+				m.fire(t)
+				return tTrue
+			}
+			k++
+		}
+		return tFalse
+	})
+	regV(apiPkg+".Tickers", func(m *Machine, g *Goroutine, a []Value) Value { return mkInt(int64(len(m.tickIntervals))) })
+	regV(apiPkg+".TickInterval", func(m *Machine, g *Goroutine, a []Value) Value {
+		i := int(cint(a[0], "TickInterval"))
+		if i < 0 || i >= len(m.tickIntervals) {
+			return mkInt(-1)
+		}
+		return m.tickIntervals[i]
+	})
 	regV(apiPkg+".Snapshot", func(m *Machine, g *Goroutine, a []Value) Value {
 		return m.snapshot(a[0])
 	})
